@@ -166,6 +166,7 @@ EDITS = {
     "remove_iiv": (lambda pm, m: pm.remove_iiv(m, m.random_variables.iiv.names[-1]), {"PK", "PRED", "OMEGA", "ABBREVIATED"}),
     "statement": (lambda pm, m: _change_statement(m), {"PK", "PRED"}),
     # used in sequences on the models with block IFs (see SEQ_EDITS)
+    "est_front": (lambda pm, m: pm.add_estimation_step(m, "FO", idx=0), EXEC),
     "rename_blockvar": (lambda pm, m: pm.rename_symbols(m, {"TVO": "TVOL"}), {"PK", "PRED"}),
     "lag_time": (lambda pm, m: pm.add_lag_time(m), {"PK", "THETA"}),
 }
@@ -244,6 +245,12 @@ def shards(tier):
             if e in ("rename_blockvar", "lag_time") and name not in CODE_MODELS:
                 continue
             out.append(("edit", name, e))
+    # an edit of the execution steps followed by an unrelated edit (the second generation sees what the first left as baseline)
+    for name in ("base", "pheno"):
+        for a in ("cov_step", "remove_cov_step", "est_method", "est_option", "est_front"):
+            for b in ("theta_init", "description", "est_option"):
+                if a != b:
+                    out.append(("edit", name, a + "+" + b))
     # two edits in sequence on the same object (the second works on what the first left in the record caches)
     for name in CODE_MODELS:
         for a, b in itertools.permutations(SEQ_EDITS, 2):
@@ -354,12 +361,23 @@ def run_shard(shard, tier):
                 f, fp = EDITS[part]
                 footprint |= set(fp)
                 m2 = f(pm, m2)
+            # .code prints the control stream as it is; some edits leave generating it to the caller
+            m2 = m2.update_source()
             after = m2.code
         except Exception as ex:
             note(f"edit-refused:{type(ex).__name__}")
             return res
     res["distinct_nontrivial"] += 1
     fails = frame_check(before, after, footprint) + comment_lines_check(before, after)
+    # the edited model is an unmodified model from now on: generating its code again changes nothing
+    try:
+        with warnings.catch_warnings():
+            warnings.simplefilter("ignore")
+            again = m2.update_source().code
+        if again != after:
+            fails.append("regenerating the code of the edited (now unmodified) model changes it: " + _first_diff(after, again))
+    except Exception as ex:
+        fails.append(f"regenerating the code of the edited model raises {type(ex).__name__}: {str(ex)[:80]}")
     note("ok" if not fails else "frame-violation")
     for d in fails[:10]:
         res["violations"].append({"kind": "edit", "model": name, "edit": e, "what": f"[{name}: {e}] {d}", "class": f"edit:{e}:{d[:40]}"})
@@ -454,7 +472,12 @@ def replay(w):
             f, fp = EDITS[part]
             footprint |= set(fp)
             m2 = f(pm, m2)
-        return frame_check(m.code, m2.code, footprint) + comment_lines_check(m.code, m2.code)
+        m2 = m2.update_source()
+        fails = frame_check(m.code, m2.code, footprint) + comment_lines_check(m.code, m2.code)
+        again = m2.update_source().code
+        if again != m2.code:
+            fails.append("regenerating the code of the edited (now unmodified) model changes it: " + _first_diff(m2.code, again))
+        return fails
 
 
 def classify(w):
